@@ -16,6 +16,7 @@ from ..core import VERIF_ROOT
 from ..runner import PY, shard_env
 
 LEVEL = "exploration"
+TECHNIQUE = "runtime monitoring: history-differential monitor - per-maze digests of serial generation after random histories of RNG and library use, in fresh processes and across PYTHONHASHSEED values, against a pristine-process reference; RNG-state trace at first generator entry; caller's config snapshot before/after"
 RULE = ("for each configuration (all generators, kwargs, seeds {0,42,7,2^31-1,random}, endpoint options) the per-maze digests "
         "sha256(connection_list, solution) of serial generation are collected from (a) fresh interpreter processes with "
         "PYTHONHASHSEED in {0,1,4242,random} in forward and reversed config order, (b) K random in-process histories of 1-6 "
